@@ -72,7 +72,33 @@ def single_function_programs(rng):
             if prog["steps"]:
                 out.append((prog, nv))
                 break
+    # forms the generator does not produce
+    import numpy as np
+    inp = dict(shape=[4, 6], chunks=[2, 3], dtype="int64", seed=2, pattern="lin", src="asarray")
+    for steps in ([dict(op="map_blocks_np_first", args=[0])],
+                  [dict(op="map_blocks_np_first", args=[0]), dict(op="add", args=[1, 0])]):
+        prog = dict(inputs=[inp], steps=steps, outs=[len(steps)])
+        out.append((prog, programs.Interp(np, False).run(prog)))
     return out
+
+
+def tight_rechunk_scenario(rng):
+    """A memory-limited rechunk under Specs with the same USABLE memory (allowed - reserved) but different reserved_mem."""
+    import cubed
+    for _ in range(40):
+        prog = programs._rechunk_candidate(rng)
+        if programs._count_copy_ops(prog) >= 2:
+            break
+    A = prog["spec"]["allowed_mem"]
+    nv = programs.Interp(np, False).run(prog)
+    events, labels = [], []
+    with traced.Session() as s:
+        for vi, R in enumerate([0, max(1, A // 20), A, 4 * A]):
+            spec = cubed.Spec(work_dir=s.work, allowed_mem=A + R, reserved_mem=R)
+            ev, res, ob = apitrace.run_program_steps(prog, s, variant=vi, spec=spec)
+            events += ev
+            labels.append(f"allowed={A + R},reserved={R}")
+    return prog, events, labels
 
 
 def run(chk):
@@ -89,6 +115,11 @@ def run(chk):
     docs, metas = [], []
     for prog, nv in progs:
         events, labels = run_scenario(prog, rng, nvar)
+        docs.append(dict(events=events))
+        metas.append(dict(program=prog, variants=labels,
+                          summaries=[(e["variant"], e["accepted"], e["exc"], e["value"]) for e in events if e["call"] == "summary"]))
+    for _ in range(6 if chk.tier == "quick" else 80):
+        prog, events, labels = tight_rechunk_scenario(rng)
         docs.append(dict(events=events))
         metas.append(dict(program=prog, variants=labels,
                           summaries=[(e["variant"], e["accepted"], e["exc"], e["value"]) for e in events if e["call"] == "summary"]))
